@@ -66,7 +66,7 @@ def gen_case(sim):
                         (0, 5, 1234567890, 1700000001, 2 ** 31 - 1)[sim.choose(5)]])
         else:
             ops.append(["mkdir", MODES_BITS[sim.choose(len(MODES_BITS))]])
-    return {"size": size, "data_seed": sim.choose(1000), "ops": ops}
+    return {"size": size, "data_seed": sim.choose(1000), "ops": ops, "pipelined": bool(sim.choose(3) == 0)}
 
 
 def pattern(case, upto=None):
@@ -158,13 +158,14 @@ def run_case(sim, s, case, fi):
         pre = b""
         if kind == "truncate" and op[4]:
             pre = content(op[4] + 17, op[4])
+        lf = rf = None
         # ---- local reference
         try:
             if via == "handle":
-                with open(lp, hmode + "b") as lf:
-                    if pre:
-                        lf.write(pre)
-                    local_apply(kind, op, lp, lf)
+                lf = open(lp, hmode + "b")
+                if pre:
+                    lf.write(pre)
+                local_apply(kind, op, lp, lf)
             else:
                 local_apply(kind, op, lp, None)
         except (OSError, ValueError) as e:
@@ -173,16 +174,38 @@ def run_case(sim, s, case, fi):
         try:
             if via == "handle":
                 rf = s.sftp.open(name, hmode + "b", (0, 65536)[1 if pre else 0])
-                try:
-                    if pre:
-                        rf.write(pre)
-                    remote_apply(kind, op, rf)
-                finally:
-                    rf.close()
+                if case.get("pipelined"):
+                    rf.set_pipelined(True)
+                if pre:
+                    rf.write(pre)
+                remote_apply(kind, op, rf)
             else:
                 remote_apply_path(kind, op, s.sftp, name)
         except Exception as e:
             rex = e
+        # the change has to be in effect when the call returns, not only once the handle is closed
+        if via == "handle" and lex is None and rex is None and kind in ("truncate", "chmod", "chown"):
+            a0, b0 = snapshot(lp), snapshot(rp)
+            for k in ("size", "mode", "uid", "gid"):
+                if a0[k] != b0[k]:
+                    for f in (lf, rf):
+                        try:
+                            f.close()
+                        except Exception:
+                            pass
+                    fail(("C31", "stat-differs", kind, k, "while-handle-open"),
+                         "step %d %s: right after the call returned (handle still open%s) %s of twin is %r, of served file %r"
+                         % (i, op, ", pipelined" if case.get("pipelined") else "", k, a0[k], b0[k]), i)
+            sim.probe("compared_while_handle_open")
+        for f, side in ((lf, "l"), (rf, "r")):
+            if f is not None:
+                try:
+                    f.close()
+                except Exception as e:
+                    if side == "l":
+                        lex = lex or e
+                    else:
+                        rex = rex or e
         if kind == "utime":
             times_set = True
         if (lex is None) != (rex is None):
@@ -273,6 +296,8 @@ def case_candidates(case):
         for i in range(0, n, size):
             yield with_(ops=ops[:i] + ops[i + size:])
         size //= 2
+    if case.get("pipelined"):
+        yield with_(pipelined=False)
     for small in SIZES:
         if small < case["size"]:
             yield with_(size=small)
